@@ -65,6 +65,8 @@ FIXED += [
     ("C02", "0a7cabf", "`name = ext`: wildcard characters in the right-hand column's VALUE were read as a pattern (for a file `a.*` every name equalled its extension) (audit agent; C02's model no longer exempts such values)", []),
     ("C03", "fb4fd25", "`>`, `>=`, `<`, `<=` and BETWEEN on a text value were false for every entry and so were their negations (`name > 'b'` and `not name > 'b'` both empty): `not A` was not the complement of A (audit agent)", []),
     ("C03", "bb45f3e", "LIKE / regular expressions on numbers, dates and booleans were false for every entry and so were their negations (`size like '1%'`, `size not like '1%'`) (audit agent)", []),
+    ("C10", "c97bb62", "a bracket opened after a function word and never closed was accepted: `lower( from .`, `name, lower(( from .`, `where size > length(`, `name, length( limit x` ended with status 0 and rows (every error in the first argument was discarded) (audit agent; the forms are now enumerated in class v)", []),
+    ("C10", "b122ef5", "a dangling NOT (`where is_file not`, `where name not`) was silently dropped: status 0 (audit agent; enumerated in class v)", []),
     ("C10", "9b6a0a7", "day('2020-0\u0661-01'): the date pattern matched non-ASCII digits and the integer parse of the capture was unwrapped (found by the eval_total fuzz target after 2e7 executions)", ["date-non-ascii-digit"]),
     ("C10", "69a0b27", "`name from './[a' depth 1 rx`: a malformed pattern in a regexp search root panicked (unwrap of Regex::new)", ["regexp-root-malformed"]),
 ]
